@@ -336,6 +336,18 @@ theorem C27_v2split_bounds_partial (reward : Fixed64) (crcMatch : Option Nat) (p
         rw [e, Fixed64.toInt_ofInt, bmod_exact _ (by omega) (by omega)]
         omega
 
+/-- **With float shares of the standard model the hypothesis of the previous theorem holds**: for
+    every rounding operator, every block reward `R ≥ 0` and all vote weights `N_v ≥ 0` (not all zero),
+    each voter's share `⌊fl(fl(N_v/ΣN)·⌊3R/4⌋)⌋` is non-negative and all shares together are at most
+    `R` — so the producer owner's remainder `R − Σ shares` is never negative. (No bound on `R` is
+    needed: two roundings cannot lift three quarters above the whole.) -/
+theorem C27_v2_shares_std (fl : ℚ → ℚ) (h : FloatModel.StdModel fl) (R : ℤ) (hR : 0 ≤ R)
+    (Ns : List ℤ) (hN : ∀ n ∈ Ns, 0 ≤ n) (hpos : 0 < Ns.sum) :
+    (∀ n ∈ Ns, 0 ≤ FloatModel.v2ShareQ fl n Ns.sum (R * 3 / 4)) ∧
+    (Ns.map (fun n => FloatModel.v2ShareQ fl n Ns.sum (R * 3 / 4))).sum ≤ R :=
+  ⟨fun n hn => FloatModel.v2Share_nonneg h (hN n hn) hpos (Int.ediv_nonneg (by omega) (by omega)),
+   FloatModel.v2_shares_le_reward h R hR Ns hN hpos⟩
+
 example : v2Split 53272451 none true [(0, 15981735), (1, 23972602)] =
     [(.voter 0, 15981735), (.voter 1, 23972602), (.owner, 13318114)] := by decide
 
